@@ -31,7 +31,13 @@ def make_copy(m):
         cfgh = os.path.join(HERE, 'support', 'config.h')
     shutil.copy(cfgh, os.path.join(d, 'repo', 'config.h'))
     before = {f: open(os.path.join(d, 'repo', 'src', f), 'rb').read() for f in ('confuse.c', 'lexer.l')}
-    if 'py' in m:
+    if 'patch' in m:
+        r = subprocess.run(['patch', '-p1', '-s', '-i', os.path.join(HERE, 'selftest', m['patch'])], cwd=os.path.join(d, 'repo'),
+                           stdout=subprocess.PIPE, stderr=subprocess.STDOUT)
+        if r.returncode:
+            shutil.rmtree(d)
+            return None, 'patch does not apply: ' + r.stdout.decode()[-300:]
+    elif 'py' in m:
         r = subprocess.run([sys.executable, os.path.join(HERE, 'selftest', 'py', m['py'])], cwd=os.path.join(d, 'repo'),
                            stdout=subprocess.PIPE, stderr=subprocess.STDOUT)
         if r.returncode:
